@@ -103,7 +103,10 @@ type DecimateState struct {
 // ConfigurePulseLengths sets this stream's pulse length and # of presamples.
 // Also removes any existing projectors and basis.
 func (dsp *DataStreamProcessor) ConfigurePulseLengths(nsamp, npre int) error {
-	// if nsamp or npre is invalid, panic, do not silently ignore
+	// Validate before changing anything: a rejected request must leave the old lengths in force.
+	if !dsp.pulseLengthsValid(nsamp, npre) {
+		return fmt.Errorf("dsp.EMTState in invalid")
+	}
 	if dsp.NSamples != nsamp || dsp.NPresamples != npre {
 		dsp.removeProjectorsBasis()
 		dsp.EMTState.reset()
@@ -114,26 +117,34 @@ func (dsp *DataStreamProcessor) ConfigurePulseLengths(nsamp, npre int) error {
 	dsp.NPresamples = npre
 	dsp.EMTState.nsamp = int32(nsamp)
 	dsp.EMTState.npre = int32(npre)
-	if dsp.EdgeMulti && !dsp.EMTState.valid() {
-		return fmt.Errorf("dsp.EMTState in invalid")
-	}
 	dsp.EMTState.reset()
 	return nil
 }
 
+// pulseLengthsValid tells whether this stream's trigger settings allow the given record lengths.
+func (dsp *DataStreamProcessor) pulseLengthsValid(nsamp, npre int) bool {
+	if !dsp.EdgeMulti {
+		return true
+	}
+	s := dsp.EMTState
+	s.nsamp = int32(nsamp)
+	s.npre = int32(npre)
+	return s.valid()
+}
+
 // ConfigureTrigger sets this stream's trigger state.
 func (dsp *DataStreamProcessor) ConfigureTrigger(state TriggerState) error {
+	// we currently have two locations where we have nsamp and npre inside a dsp
+	// we should fix that, but for now just keep them in sync
+	state.EMTState.nsamp = int32(dsp.NSamples)
+	state.EMTState.npre = int32(dsp.NPresamples)
+	// Validate before changing anything: a rejected request must leave the old settings in force.
+	if state.EdgeMulti && !state.EMTState.valid() {
+		return fmt.Errorf("dsp.EMTState in invalid")
+	}
 	dsp.TriggerState = state
 	dsp.LastTrigger = 0 // forget the Last Trigger, so that all channels will auto trigger
 	// at the same starting point when you send new trigger settings
-
-	// we currently have two locations where we have nsamp and npre inside a dsp
-	// we should fix that, but for now just keep them in sync	dsp.EMTState.nsamp = int32(dsp.NSamples)
-	dsp.EMTState.nsamp = int32(dsp.NSamples)
-	dsp.EMTState.npre = int32(dsp.NPresamples)
-	if dsp.EdgeMulti && !dsp.EMTState.valid() {
-		return fmt.Errorf("dsp.EMTState in invalid")
-	}
 	dsp.EMTState.reset()
 	return nil
 }
